@@ -314,6 +314,12 @@ func c12(c *ctx) {
 				c.run.Violate("short:"+s.cfg+":"+hid, "history result incomplete", map[string]any{"grammar": s.hc.cs.text, "history": s.hc.hist, "config": s.cfg})
 				continue
 			}
+			if k, got, want, bad := keptErrorChanged(res.Hist, res.LateErr); bad {
+				c.run.Violate("kept-error:"+s.cfg+":"+hid, fmt.Sprintf("the error returned for step %d of a history reads differently once the same parser has been reset with later inputs (%s)", k, s.cfg),
+					map[string]any{"grammar": s.hc.cs.text, "history": s.hc.hist, "config": s.cfg, "step": k, "message_when_returned": want, "message_after_the_history": got})
+			} else {
+				c.run.Count("errors_kept_across_later_inputs", len(res.LateErr))
+			}
 			shrinkAfterSuccess, successAfterFailure := false, false
 			prev := -1
 			for j := range res.Hist {
